@@ -3,6 +3,8 @@ CONSTANTS
   Libraries <- LibrariesT
   Rewards <- RewardsC
   MaxFamily = 5
-  PrevOffset = 16384
+  PrevOffsets = {0, 16384}
+  MaxFamilyOf <- MaxFamilyT
+  PlanChoices <- NoPlanChoices
 CONSTRAINT NoPlans
 INVARIANTS Emit
